@@ -239,7 +239,7 @@ pub fn close_position(
     let is_over_fluctuation_limit = query_is_over_fluctuation_limit(
         &deps.as_ref(),
         vamm.to_string(),
-        Direction::RemoveFromAmm,
+        base_direction.clone(),
         position.size.value,
     )?;
 
